@@ -114,7 +114,7 @@ func c09Profiles(tier string) []Profile {
 	stores := &SeqProfile{Name: "stores", Keys: keys, Depth: d + 1, Init: initX, Mon: mon,
 		Letters: func(w *harness.World) []Letter {
 			ls := storeLetters(true, true)(w)
-			return append(ls, Letter{"Revert", func(w *harness.World) { w.Revert(); ensureX(w) }})
+			return append(ls, Letter{"Revert", func(w *harness.World) { w.Revert() }})
 		}}
 	// 3. tools/view on every distinct flushed image
 	view := &SeqProfile{Name: "view", Keys: keys, Depth: dv, Init: initX, Mon: mon,
